@@ -59,6 +59,10 @@ type File struct {
 	Base   uint64
 	Events []*AEvent // without the leading FORMAT_DESCRIPTION (added by Layout)
 	FDE    *AEvent
+	// Cfg, when set, is the configuration this file was written under (the
+	// master's binlog_checksum was changed, the server was upgraded, ... : the
+	// setting is recorded per file in its FORMAT_DESCRIPTION)
+	Cfg *Cfg
 }
 
 // History is an abstract binlog: files in order; every file but the last ends
@@ -66,6 +70,16 @@ type File struct {
 type History struct {
 	Cfg   Cfg
 	Files []*File
+	// Global, when set, is the master's CURRENT setting: the artificial ROTATE
+	// that opens a dump is written under it, whatever the file was written under
+	Global *Cfg
+}
+
+func (h *History) cfgOf(f *File) Cfg {
+	if f.Cfg != nil {
+		return *f.Cfg
+	}
+	return h.Cfg
 }
 
 // Position is a binlog coordinate.
@@ -136,7 +150,8 @@ func (h *History) Layout() {
 		pos := uint64(4)
 		f.FDE = &AEvent{Kind: AFormatDesc, TS: 1500000000}
 		f.FDE.File, f.FDE.Pos = f.Name, pos
-		f.FDE.Bytes = h.Cfg.encode(f.FDE, pos)
+		cfg := h.cfgOf(f)
+		f.FDE.Bytes = cfg.encode(f.FDE, pos)
 		pos += uint64(len(f.FDE.Bytes))
 		f.FDE.End = pos
 		based := false
@@ -152,11 +167,11 @@ func (h *History) Layout() {
 			if e.Kind == AHeartbeat {
 				// heartbeats are not part of the file: they carry the current
 				// coordinates but do not advance them
-				e.Bytes = h.Cfg.encode(e, pos)
+				e.Bytes = cfg.encode(e, pos)
 				e.End = pos
 				continue
 			}
-			e.Bytes = h.Cfg.encode(e, pos)
+			e.Bytes = cfg.encode(e, pos)
 			pos += uint64(len(e.Bytes))
 			e.End = pos
 		}
@@ -218,15 +233,23 @@ func (h *History) Serve(file string, pos uint64) ([]*AEvent, error) {
 		return nil, ErrBadPosition{fmt.Sprintf("Client requested master to start replication from impossible position; the first event '%s' at %d", file, pos)}
 	}
 	var out []*AEvent
+	// the artificial ROTATE in front of a file is written under the setting the
+	// sender is in at that moment: the master's current one when the dump
+	// starts, the previous file's one afterwards
+	fakeCfg := h.cfgOf(h.Files[i])
+	if h.Global != nil {
+		fakeCfg = *h.Global
+	}
 	for ; i < len(h.Files); i++ {
 		f := h.Files[i]
 		fake := &AEvent{Kind: ARotate, RotateFile: f.Name, RotatePos: pos, Artificial: true, File: f.Name, Flags: 0x20}
-		fake.Bytes = h.Cfg.encode(fake, 0)
+		fake.Bytes = fakeCfg.encode(fake, 0)
+		fakeCfg = h.cfgOf(f)
 		out = append(out, fake)
 		if pos > 4 {
 			// the master sends the file's format description with next_pos 0
 			fde := &AEvent{Kind: AFormatDesc, TS: f.FDE.TS, Artificial: true, File: f.Name, Pos: 4}
-			fde.Bytes = h.Cfg.encode(fde, 4)
+			fde.Bytes = fakeCfg.encode(fde, 4)
 			out = append(out, fde)
 		} else {
 			out = append(out, f.FDE)
